@@ -130,13 +130,17 @@ def opts_rule(ctx, R):
     M = qp.models(ctx)[(False, False)]
     ov = M.state.env.lookup(f.params[1]) if len(f.params) > 1 else None
     dflt = M.ev.resolve_global("removeOverlap", "DEFAULT_OPTIONS")
-    ok = isinstance(ov, DictV) and isinstance(dflt, DictV) and set(dflt.items) <= set(ov.items)
+    ok = isinstance(dflt, DictV) and ov is not None and ov is not dflt and (not isinstance(ov, DictV) or set(dflt.items) <= set(ov.items))
     if ok:
+        # whatever holds the effective options (a merged dict, a small mapping object): reading a default's key gives the
+        # caller's value when supplied, the default otherwise
         for k_, dv in dflt.items.items():
-            v = ov.items[k_]
+            try:
+                v = ov.items[k_] if isinstance(ov, DictV) else M.ev.getitem(ov, Const(k_), M.state)
+            except Exception:
+                v = None
             if not (isinstance(v, OverrideV) and key(v.o) == "options" and key(v.old) == key(dv)):
                 ok = False
-        ok = ok and ov is not dflt
     R.check(ok, "C01.OPTS", qp.RO + "|options merge", where(f), "effective options = copy of DEFAULT_OPTIONS updated with the caller's dict", "the effective options are not 'DEFAULT_OPTIONS overridden by the caller's dict' (got %s): a missing key raises KeyError at the first adjacent stub pair, or defaults win over the caller" % show(ov, 200))
     mod = P.module("removeOverlap")
     d = dflt.items.get("lineSpacing") if isinstance(dflt, DictV) else None
@@ -320,7 +324,19 @@ def lastwriter(ctx, R):
             if isinstance(nn, ast.Attribute) and nn.attr == "currentPos" and isinstance(nn.ctx, ast.Store):
                 if P.enclosing_func(nn) is g:
                     writers.add(g.qual)
-                    R.check(_cur_writer_ok(g), "C01.LASTWRITER", "writer of .currentPos: %s" % g.qual, where(g, nn), "known writer of Node.currentPos",
+                    okw = _cur_writer_ok(g)
+                    if not okw:
+                        # a helper (alternative constructor, private method) that writes on behalf of known writers only: every
+                        # function of the package that calls it is itself a known writer
+                        def via_known(h, depth=0):
+                            t = h
+                            while t.parent is not None:
+                                t = t.parent
+                            cs = [P.funcs[c] for c in cg.inn.get(t.qual, ()) if c in P.funcs]
+                            return bool(cs) and depth < 3 and all(_cur_writer_ok(c) or via_known(c, depth + 1) for c in cs)
+
+                        okw = via_known(g)
+                    R.check(okw, "C01.LASTWRITER", "writer of .currentPos: %s" % g.qual, where(g, nn), "known writer of Node.currentPos",
                             "`%s` writes Node.currentPos: a position written outside removeOverlap's write-back can undo the separation the solver established" % g.qual)
             if isinstance(nn, ast.Call) and isinstance(nn.func, ast.Name) and nn.func.id == "setattr" and len(nn.args) >= 2 and isinstance(nn.args[1], ast.Constant) and nn.args[1].value == "currentPos":
                 R.bad("C01.LASTWRITER", "setattr currentPos in %s" % g.qual, where(g, nn), "setattr(..., 'currentPos', ...) outside the known writers")
